@@ -135,10 +135,16 @@ pub fn quota_native_related_case(idx: usize, reg: &[Box<dyn Ops>], g: &mut crate
 // ------------------------------------------------------------------ C06
 fn hostile(g: &mut crate::gen::G) -> Vec<u8> {
     // headers and values with absurd counts, deep nesting, zero-sized element bombs
-    let huge: &[&[u8]] = &[b"\xff\xff\xff\xff\x0f", b"\xff\xff\xff\xff\xff\xff\xff\xff\x7f", b"\x80\x80\x80\x80\x80\x80\x80\x80\x80\x01", b"\xff\xff\xff\x7f", b"\x80\x80\x01", b"\xe8\x07"];
+    let huge: &[&[u8]] = &[b"\xff\xff\xff\xff\x0f", b"\xff\xff\xff\xff\xff\xff\xff\xff\x7f", b"\x80\x80\x80\x80\x80\x80\x80\x80\x80\x01", b"\xff\xff\xff\x7f", b"\x80\x80\x01", b"\xe8\x07", b"\x80\x80\x80\x08", b"\xff\xff\xff\xff\xff\x1f"];
     let h = huge[g.rng_range(0, huge.len())];
     let mut b = b"DIDL".to_vec();
-    match g.rng_range(0, 12) {
+    match g.rng_range(0, 17) {
+        // length prefixes of sized data that the input does not contain: blob, text, vec nat64, principal, blob as surplus argument / field
+        12 => { b.extend([1, 0x6d, 0x7b, 1, 0]); b.extend(h); b.extend([1, 2, 3]); }
+        13 => { b.extend([0, 1, 0x71]); b.extend(h); b.extend(b"ab"); }
+        14 => { b.extend([1, 0x6d, 0x78, 1, 0]); b.extend(h); b.extend([0; 16]); }
+        15 => { b.extend([0, 1, 0x68, 1]); b.extend(h); b.push(4); }
+        16 => { b.extend([2, 0x6d, 0x7b, 0x6c, 2, 0, 0x7d, 1, 0, 1, 1, 7]); b.extend(h); b.extend([9, 9]); }
         0 => { b.extend(h); }                                                         // table length
         1 => { b.extend([1, 0x6c]); b.extend(h); }                                    // field count
         2 => { b.extend([1, 0x6a]); b.extend(h); }                                    // func args
@@ -164,6 +170,9 @@ pub fn fuzz_case(idx: usize, c: Option<&Value>, reg: &[Box<dyn Ops>], g: &mut cr
             _ => { let m = crate::msg::rand_msg(g, 0); (m.bytes, "valid") }
         },
     };
+    // hostile length prefixes of sized data (cases 12-16 of hostile()) are recognised by their bytes, whatever produced them
+    let sized = bytes.len() > 6 && bytes.starts_with(b"DIDL") && { let b = &bytes[4..]; b.starts_with(&[1, 0x6d, 0x7b, 1, 0]) || b.starts_with(&[0, 1, 0x71]) || b.starts_with(&[1, 0x6d, 0x78, 1, 0]) || b.starts_with(&[0, 1, 0x68, 1]) || b.starts_with(&[2, 0x6d, 0x7b, 0x6c, 2, 0, 0x7d, 1, 0, 1, 1]) };
+    let origin = if sized && origin != "tlc" { "hostile-length" } else { origin };
     if std::env::var("CV_DEBUG").is_ok() { eprintln!("case {idx} {origin} {}", bytes.iter().map(|b| format!("{b:02x}")).collect::<String>()); }
     // every choice about *how* an input is decoded derives from the input itself, so that another build sees the same cases
     let hseed = bytes.iter().fold(0xcbf29ce484222325u64, |h, b| (h ^ *b as u64).wrapping_mul(0x100000001b3));
@@ -177,7 +186,8 @@ pub fn fuzz_case(idx: usize, c: Option<&Value>, reg: &[Box<dyn Ops>], g: &mut cr
     // the unmetered entry points are exercised only on inputs that the conformance suite's quota (2*10^7) does not reject
     let pre = untyped_with(&bytes, &env, &ets, &cfg(Some(20_000_000), None));
     let pre_any = untyped_with(&bytes, &env, &[], &cfg(Some(20_000_000), None));
-    let bomb = pre.get("quota").is_some() || pre_any.get("quota").is_some();
+    // a length prefix of *sized* data beyond the end of the input is not a bomb: a decoder finds the bytes missing at once, quota or not
+    let bomb = !sized && (pre.get("quota").is_some() || pre_any.get("quota").is_some());
     let quotas: [(Option<usize>, Option<usize>); 5] = [(if bomb { Some(20_000_000) } else { None }, None), (Some(0), None), (Some(100), Some(1000)), (Some(10_000), Some(0)), (Some(2_000_000), Some(10_000))];
     let mut runs = vec![];
     for (d, s) in quotas {
